@@ -389,6 +389,8 @@ to_internal_location(struct hwloc_internal_location_s *iloc,
     }
     iloc->location.object.gp_index = location->location.object->gp_index;
     iloc->location.object.type = location->location.object->type;
+    /* also fill the cached object, a new initiator may be stored without invalidating the cache */
+    iloc->location.object.obj = location->location.object;
     return 0;
   default:
     errno = EINVAL;
